@@ -55,6 +55,21 @@ struct ChainSpec {
 	/// 2 windows that are open to the far end (T[9]) end in 2055 (GeneralizedTime); 3 both; 4 as 3 in a non-UTC offset.
 	/// The instants (to the second) and therefore the expected verdicts are the same in every flavour.
 	tflav: u8,
+	/// 0: default key identifiers, no authority key identifier. 1..=4: every issued certificate asks for the
+	/// authority key identifier and the CAs use different key-identifier methods down the chain
+	/// (SHA-256/384/512, pre-specified). Verdicts do not depend on it.
+	kidflav: u8,
+	/// issuance route of intermediates and leaf (key pair, SubjectPublicKeyInfo, parsed CSR)
+	route: u8,
+}
+
+fn kid_for(flav: u8, level: usize) -> KidSpec {
+	match (flav as usize + level) % 4 {
+		0 => KidSpec::Sha256,
+		1 => KidSpec::Sha384,
+		2 => KidSpec::Sha512,
+		_ => KidSpec::Pre((0..20).map(|i| (i * 7 + level * 31) as u8 ^ 0x5a).collect()),
+	}
 }
 
 const FAR_END: i64 = 2_700_000_000;
@@ -88,6 +103,8 @@ fn base(depth: usize) -> ChainSpec {
 		at: T[5],
 		purpose: 0,
 		tflav: 0,
+		kidflav: 0,
+		route: 0,
 	}
 }
 
@@ -205,8 +222,12 @@ struct Built {
 }
 
 fn build(c: &ChainSpec, keys: &[&PoolKey], rng: &mut Rng) -> Result<Built, String> {
-	let mk = |node: &Node, cn: &str| -> ParamSpec {
+	let mk = |node: &Node, cn: &str, level: usize| -> ParamSpec {
 		let mut s = ParamSpec::minimal();
+		if c.kidflav != 0 {
+			s.kid = kid_for(c.kidflav, level);
+			s.use_aki = level > 0;
+		}
 		s.subject = vec![AttrSpec {
 			ty: DnTy::Cn,
 			kind: StrKind::Utf8,
@@ -227,7 +248,7 @@ fn build(c: &ChainSpec, keys: &[&PoolKey], rng: &mut Rng) -> Result<Built, Strin
 		p
 	};
 	let kroot = *rng.pick(keys);
-	let root = dup(&c.root, mk(&c.root, "verif root ca").to_rcgen(None)).self_signed(&kroot.kp).map_err(|e| format!("root: {}", e))?;
+	let root = dup(&c.root, mk(&c.root, "verif root ca", 0).to_rcgen(None)).self_signed(&kroot.kp).map_err(|e| format!("root: {}", e))?;
 	let mut inters = Vec::new();
 	let mut signer_cert = &root;
 	let mut signer_key = kroot;
@@ -235,8 +256,7 @@ fn build(c: &ChainSpec, keys: &[&PoolKey], rng: &mut Rng) -> Result<Built, Strin
 	for (i, n) in c.inters.iter().enumerate() {
 		ikeys.push(*rng.pick(keys));
 		let k = ikeys[i];
-		let cert = dup(n, mk(n, &format!("verif intermediate ca {}", i)).to_rcgen(None))
-			.signed_by(&k.kp, signer_cert, &signer_key.kp)
+		let cert = crate::mon::certs::issue_via(c.route as u64, dup(n, mk(n, &format!("verif intermediate ca {}", i), i + 1).to_rcgen(None)), k, signer_cert, &signer_key.kp)
 			.map_err(|e| format!("intermediate {}: {}", i, e))?;
 		inters.push(cert);
 		signer_cert = inters.last().unwrap();
@@ -258,10 +278,11 @@ fn build(c: &ChainSpec, keys: &[&PoolKey], rng: &mut Rng) -> Result<Built, Strin
 	l.ekus = c.leaf_ekus.clone();
 	l.not_before = tspec(c.leaf_window.0, c.tflav, false);
 	l.not_after = tspec(c.leaf_window.1, c.tflav, true);
-	let leaf = l
-		.to_rcgen(None)
-		.signed_by(&kleaf.kp, signer_cert, &signer_key.kp)
-		.map_err(|e| format!("leaf: {}", e))?;
+	if c.kidflav != 0 {
+		l.kid = kid_for(c.kidflav, c.inters.len() + 1);
+		l.use_aki = true;
+	}
+	let leaf = crate::mon::certs::issue_via(c.route as u64 + 1, l.to_rcgen(None), kleaf, signer_cert, &signer_key.kp).map_err(|e| format!("leaf: {}", e))?;
 	let _ = signer_key;
 	Ok(Built { root, inters, leaf })
 }
@@ -320,6 +341,17 @@ fn directed() -> Vec<(String, ChainSpec)> {
 					c.inters[pos as usize].is_ca = IsCaSpec::Ca(pl);
 				}
 				v.push((format!("pathlen:depth{}:{}:{:?}", depth, pos_name, pl), c));
+			}
+		}
+	}
+	// key-identifier methods down the chain x issuance route (authority key identifiers requested everywhere)
+	for depth in 0..=2usize {
+		for flav in 1..=4u8 {
+			for route in 0..3u8 {
+				let mut c = base(depth);
+				c.kidflav = flav;
+				c.route = route;
+				v.push((format!("keyid:depth{}:flavour{}:route{}", depth, flav, route), c));
 			}
 		}
 	}
@@ -449,6 +481,8 @@ fn random_case(rng: &mut Rng) -> ChainSpec {
 		}
 	}
 	c.tflav = if rng.chance(1, 2) { 0 } else { 1 + rng.below(4) as u8 };
+	c.kidflav = if rng.chance(1, 2) { 0 } else { 1 + rng.below(4) as u8 };
+	c.route = rng.below(3) as u8;
 	if rng.chance(1, 3) {
 		c.leaf_window = (T[2], T[7]);
 		c.inters[0].window = (T[1], T[8]);
